@@ -313,9 +313,14 @@ DRAIN_PRELUDE = [{"a": "LcRec"}, {"a": "NodeAppears", "ready": True, "unreg": Tr
                  {"a": "DeleteClaim"}, {"a": "LcRec"}]
 
 
-def pod_cfg(a):
+TOLERATING = ("key-exists", "key-equal", "wildcard", "wildcard-effect")     # forms that tolerate karpenter.sh/disrupted:NoSchedule
+NOT_TOLERATING = ("", "", "wrong-effect", "wrong-key")                       # forms that do not (Kubernetes toleration semantics)
+
+
+def pod_cfg(a, rng):
     owner = "node" if a["static"] else ("daemonset" if a["daemon"] else "replicaset")
     return {"name": a["name"], "owner": owner, "critical": bool(a["crit"]), "dnd": DND[a["dnd"]], "tol": bool(a["tol"]),
+            "tolKind": rng.choice(TOLERATING if a["tol"] else NOT_TOLERATING),
             "tgps": a["tgps"] * UNIT, "pdb": a["pdb"], "late": bool(a["late"]), "pv": False}
 
 
@@ -323,7 +328,7 @@ def drain_from_model(h, rng):
     st = h[0]
     if st["a"] != "Start":
         raise vlib.InfraError("history does not begin with Start: %r" % (st,))
-    cfg = {"tgp": TGP_UNITS * UNIT if st["tgp"] else -1, "instant": False, "pods": [pod_cfg(a) for a in st["pods"]], "orphanVA": False}
+    cfg = {"tgp": TGP_UNITS * UNIT if st["tgp"] else -1, "instant": False, "pods": [pod_cfg(a, rng) for a in st["pods"]], "orphanVA": False}
     steps = list(DRAIN_PRELUDE)
     evict_errs = ("Server", "Server", "NotFound", "Conflict", "TooManyRequests")
     for e in h[1:]:
@@ -347,6 +352,8 @@ def drain_from_model(h, rng):
             steps.append({"a": "UserDeletePod", "pod": e["pod"], "grace": 600 if e["long"] else -1})
         elif a == "Deadline":
             steps.append({"a": "DeadlineRel", "d": e["to"] * UNIT})
+        elif a == "DeadlineRemove":
+            steps.append({"a": "DeadlineRemove"})
         elif a == "Tick":
             steps.append({"a": "Tick", "d": rng.choice([UNIT, UNIT, UNIT - 1, UNIT + 1])})
         elif a == "Restart":
@@ -357,7 +364,8 @@ def drain_from_model(h, rng):
 
 
 def P(name, **kw):
-    d = {"name": name, "owner": "replicaset", "critical": False, "dnd": "-", "tol": False, "tgps": 30, "pdb": "-", "late": False, "pv": False}
+    d = {"name": name, "owner": "replicaset", "critical": False, "dnd": "-", "tol": False, "tolKind": "", "tgps": 30, "pdb": "-", "late": False,
+         "pv": False, "phase": ""}
     d.update(kw)
     return d
 
@@ -370,6 +378,14 @@ def drain_mixes():
         ("undrainable", [P("p1", tol=True), P("p2", owner="node"), P("p3", tgps=0)]),
         ("invalid-dnd", [P("p1", dnd="bogus"), P("p2", dnd="-5s", owner="daemonset"), P("p3", dnd="10m", critical=True)]),
         ("unset-grace", [P("p1", tgps=-1), P("p2", tgps=-1, owner="daemonset", dnd="true"), P("p3", tgps=120, owner="statefulset")]),
+        # every way of tolerating the disruption taint (decided by Kubernetes' toleration semantics), and a static daemon
+        ("tolerations", [P("p1", tol=True, tolKind="wildcard", tgps=60), P("p2", tol=True, tolKind="wildcard-effect", owner="daemonset"),
+                         P("p3", tol=True, tolKind="key-equal", critical=True, tgps=90)]),
+        ("tolerations-2", [P("p1", tol=True, tolKind="key-exists", tgps=90), P("p2", owner="node", critical=True, tgps=60), P("p3", tolKind="")]),
+        # tolerations that do NOT tolerate it (other effect, other key): these pods are drained like any other
+        ("non-tolerations", [P("p1", tolKind="wrong-effect"), P("p2", tolKind="wrong-key", owner="daemonset"), P("p3", tolKind="wrong-effect", critical=True, tgps=60)]),
+        # pods that are finished or already terminating when the drain starts
+        ("finished", [P("p1", phase="Succeeded"), P("p2", phase="Failed", owner="daemonset"), P("p3", tgps=90, pdb="blocked")]),
     ]
 
 
@@ -395,9 +411,14 @@ def drain_systematic(tier, rng):
                 # positions that follow lie around D1-grace, D1, D2-grace and D2 for the grace periods 30/60/90 (D2 = D1 +- 60/45)
                 variants += [("later", {1: [{"a": "DeadlineRel", "d": tgp + 60}]}), ("earlier", {1: [{"a": "DeadlineRel", "d": tgp - 45}]}),
                              ("later-late", {4: [{"a": "DeadlineRel", "d": tgp + 60}]}),
+                             # the annotation disappears between two drain passes (the next pass carries no deadline: nil = +infinity,
+                             # the queued deadline must survive) and comes back; and a first pass without deadline, then D
+                             ("removed", {1: [{"a": "DeadlineRemove"}], 6: [{"a": "DeadlineRel", "d": tgp}]}),
+                             ("removed-for-good", {2: [{"a": "DeadlineRemove"}]}),
+                             ("nil-first", {0: [{"a": "DeadlineRemove"}], 2: [{"a": "DeadlineRel", "d": tgp}]}),
                              ("later-restart", {1: [{"a": "DeadlineRel", "d": tgp + 60}], 3: [{"a": "Restart"}]})]
             if tier == "quick":   # the plain sweep and the rewritten deadlines always, a sample of the rest
-                fixed = [v for v in variants if v[0] in ("plain", "later", "earlier", "later-late", "later-restart")]
+                fixed = [v for v in variants if v[0] in ("plain", "later", "earlier", "later-late", "later-restart", "removed", "removed-for-good", "nil-first")]
                 rest = [v for v in variants if v not in fixed]
                 variants = fixed + rng.sample(rest, min(3, len(rest)))
             for vname, inserts in variants:
